@@ -20,9 +20,9 @@ import (
 type DrawD struct {
 	HW, HH     int
 	X, Y, W, H int
-	Nested     bool `json:",omitempty"`
-	PX, PY     int  `json:",omitempty"`
-	Focus      bool `json:",omitempty"`
+	Nested     bool   `json:",omitempty"`
+	PX, PY     int    `json:",omitempty"`
+	Focus      bool   `json:",omitempty"`
 	Steps2     []Step `json:",omitempty"`
 }
 
